@@ -6,10 +6,14 @@ package main
 //   stress-incdec decs=<n> ms=<duration>      answer: ok | panic <where>
 //   stress-arrive max=<m> workers=<n> rounds=<r>   (simultaneous arrivals at max-1)
 //   stress-churn  max=<m> workers=<n> txns=<t>     (admit / in flight / release churn)
+//   stress-queue max=<m> waiters=<n> ttl=<sec>     (a Queue processor in front of the quota: waiters time out while the slots
+//                                                   are held, the holders' responses arrive right after)
 //   stress-realclock max=<m> exp=<sec> gc=<sec>    (a full engine on the PRODUCTION clock: abandoned transactions keep their
 //                                                   slots until their expiry and lose them by the next collector pass)
 
 import (
+	"lunar/toolkit-core/verifhook"
+
 	"context"
 	"fmt"
 	"runtime"
@@ -342,6 +346,152 @@ func stressRealClock(max, expSec, gcSec int64) string {
 	return "ok"
 }
 
+// removeGate holds the asynchronous clean-up of queue entries (`go p.removeRequest`, hook point queue.before-remove) while
+// it is closed: the window in which the processing loop can still meet the entry of a request that already has its verdict.
+type removeGate struct {
+	mu     sync.Mutex
+	closed bool
+	parked int
+	ch     chan struct{}
+}
+
+func (g *removeGate) Yield(point string) {
+	if point != "queue.before-remove" {
+		return
+	}
+	g.mu.Lock()
+	if !g.closed {
+		g.mu.Unlock()
+		return
+	}
+	g.parked++
+	ch := g.ch
+	g.mu.Unlock()
+	<-ch
+}
+
+func (g *removeGate) Fault(string, string) error { return nil }
+
+func (g *removeGate) waiting() int {
+	g.mu.Lock()
+	defer g.mu.Unlock()
+	return g.parked
+}
+
+func (g *removeGate) open() {
+	g.mu.Lock()
+	defer g.mu.Unlock()
+	if g.closed {
+		g.closed = false
+		close(g.ch)
+	}
+}
+
+// A Queue processor in front of a concurrency quota, full engine, production clock. `max` transactions get the slots
+// (through the queue) and stay in flight; `waiters` more queue up behind them and reach their TTL: the gateway answers
+// them 429, they are over. Right after that the holders' responses arrive and free the slots, while the clean-up of the
+// timed-out entries has not run yet, and the processing loop makes its rounds. Nothing is in flight then: every set must
+// be empty (only a transaction that is in flight holds a slot), and `max` newcomers must get through the queue at once.
+func stressQueue(max, waiters, ttlSec int64) string {
+	c := caseCfg{gcSec: 60, gcSet: true, order: []int{0}, queueTTL: ttlSec,
+		quotas: []qspec{{conc: true, max: max, expSec: 60, expSet: true, parent: -1}}}
+	gate := &removeGate{closed: true, ch: make(chan struct{})}
+	verifhook.Install(gate)
+	defer verifhook.Install(nil)
+	e, err := newEngineOn(c, true)
+	if err != nil {
+		gate.open()
+		return "err:init"
+	}
+	defer e.close()
+	defer gate.open()
+	type res struct {
+		id string
+		v  string
+	}
+	run := func(ids []string, timeout time.Duration) (map[string]string, bool) {
+		ch := make(chan res, len(ids))
+		for _, id := range ids {
+			go func(id string) { ch <- res{id, e.request(id, false, "x", false)} }(id)
+		}
+		out := map[string]string{}
+		deadline := time.After(timeout)
+		for range ids {
+			select {
+			case r := <-ch:
+				out[r.id] = r.v
+			case <-deadline:
+				return out, false
+			}
+		}
+		return out, true
+	}
+	ids := func(prefix string, n int64) []string {
+		l := make([]string, n)
+		for i := range l {
+			l[i] = fmt.Sprintf("%s%d", prefix, i+1)
+		}
+		return l
+	}
+	ttl := time.Duration(ttlSec) * time.Second
+	holders := ids("t1", max)
+	if vs, ok := run(holders, ttl/2+5*time.Second); !ok {
+		return "holders-stuck-in-queue"
+	} else {
+		for id, v := range vs {
+			if v != "a" {
+				return fmt.Sprintf("holder-not-admitted %s v=%s", id, v)
+			}
+		}
+	}
+	if n := int64(e.total()); n != max {
+		return fmt.Sprintf("holders-without-slot held=%d/%d", n, max)
+	}
+	// the waiters queue up and time out (429); their transactions are over
+	if vs, ok := run(ids("t2", waiters), ttl+10*time.Second); !ok {
+		return "waiters-never-answered"
+	} else {
+		for id, v := range vs {
+			if v == "a" {
+				return fmt.Sprintf("exceeded waiter-admitted %s held=%d/%d", id, e.total(), max)
+			}
+		}
+	}
+	// every clean-up goroutine (holders' and waiters') is parked in front of its removal
+	for dl := time.Now().Add(5 * time.Second); int64(gate.waiting()) < max+waiters && time.Now().Before(dl); {
+		time.Sleep(time.Millisecond)
+	}
+	// the holders' responses arrive
+	for _, id := range holders {
+		e.response(id, false, "x")
+	}
+	if n := e.total(); n != 0 {
+		return fmt.Sprintf("leak after-responses held=%d", n)
+	}
+	// the processing loop makes its rounds (every 100 ms) over whatever is still queued
+	time.Sleep(450 * time.Millisecond)
+	if n := e.total(); n != 0 {
+		return fmt.Sprintf("slot-taken-with-nothing-in-flight held=%d/%d", n, max)
+	}
+	gate.open()
+	if vs, ok := run(ids("t3", max), ttl/2+5*time.Second); !ok {
+		return "starved newcomers-stuck-in-queue"
+	} else {
+		for id, v := range vs {
+			if v != "a" {
+				return fmt.Sprintf("starved newcomer %s v=%s", id, v)
+			}
+		}
+	}
+	for _, id := range ids("t3", max) {
+		e.response(id, false, "x")
+	}
+	if n := e.total(); n != 0 {
+		return fmt.Sprintf("leak at-end held=%d", n)
+	}
+	return "ok"
+}
+
 func execStress(c proto.Case, o *proto.Out) []string {
 	outs := make([]string, len(c.Ops))
 	in := func(v, lo, hi int64) bool { return v >= lo && v <= hi }
@@ -372,6 +522,13 @@ func execStress(c proto.Case, o *proto.Out) []string {
 			if ok1 && ok2 && ok3 && in(mx, 1, 16) && in(ex, 1, 10) && in(gc, 1, 10) {
 				outs[i] = stressRealClock(mx, ex, gc)
 			}
+		case "stress-queue":
+			mx, ok1 := kvI(w, "max")
+			wt, ok2 := kvI(w, "waiters")
+			tt, ok3 := kvI(w, "ttl")
+			if ok1 && ok2 && ok3 && in(mx, 1, 8) && in(wt, 1, 16) && in(tt, 1, 10) {
+				outs[i] = stressQueue(mx, wt, tt)
+			}
 		case "stress-churn":
 			mx, ok1 := kvI(w, "max")
 			wk, ok2 := kvI(w, "workers")
@@ -393,6 +550,10 @@ func genStress(emit func(proto.Case), thorough bool) {
 	for _, p := range [][3]int{{2, 2, 1}, {1, 1, 2}} {
 		emit(proto.Case{ID: fmt.Sprintf("stress:realclock-exp%d-gc%d", p[1], p[2]),
 			Ops: []string{fmt.Sprintf("stress-realclock max=%d exp=%d gc=%d", p[0], p[1], p[2])}})
+	}
+	for _, p := range [][2]int{{1, 1}, {2, 3}} {
+		emit(proto.Case{ID: fmt.Sprintf("stress:queue-max%d-waiters%d", p[0], p[1]),
+			Ops: []string{fmt.Sprintf("stress-queue max=%d waiters=%d ttl=1", p[0], p[1])}})
 	}
 	rounds, txns := 1500, 1500
 	if thorough {
